@@ -249,6 +249,7 @@ fn run_any<M: RawMutex>(cfg: &Cfg, ops: &[Op], run: &mut Run, mk_deadline: &MkDe
         }
         run.set_step(i);
         run.steps += 1;
+        let op = &recycle(op, &slots, &[OP_DEADLINE, OP_DELAY], OP_POLL, OP_DROP);
         tls::clear_op_log();
         tls::alloc_reset();
         let registered: Vec<usize> = (0..k).filter(|&j| slots[j].pending() && !slots[j].flag).collect();
